@@ -35,6 +35,9 @@ func C18_writer_reset() {
 	if vChoose("grown", 2) == 1 {
 		w.Grow(300)
 	}
+	if vChoose("parked", 2) == 1 {
+		w.Reset(nil, 0, 0) // what PutWriter does before parking a writer in the pool
+	}
 	server := vChoose("side", 2) == 0
 	op := ws.OpCode(1 + vChoose("op", 2))
 	dst := &vDst{failAt: -1}
@@ -88,9 +91,19 @@ func C18_pool_cycle() {
 	if ok && len(fs) == 1 {
 		vAssert(vAnd(fs[0].fin, vAnd(fs[0].op == 1, vEqBytes(fs[0].payload, []byte("ok")))), "pool.frame_as_new")
 	}
-	// the writer that was put back is as new too, whoever gets it next
-	w.Reset(dst, vSide(server), ws.OpText)
+	// the writer that was put back is as new too, whoever gets it next (GetWriter resets it)
+	dst3 := &vDst{failAt: -1}
+	w.Reset(dst3, vSide(server), ws.OpText)
+	fresh := NewWriterBuffer(dst3, vSide(server), ws.OpText, make([]byte, len(w.raw)))
 	vAssert(vAnd(w.err == nil, vAnd(w.n == 0, vAnd(!w.noFlush, !w.dirty))), "pool.put_writer_as_new")
+	vAssert(vAnd(len(w.buf) == len(fresh.buf), w.Size() == fresh.Size()), "pool.put_writer_buffer_as_new")
+	w.Write([]byte{'x', 'y'})
+	vAssert(w.Flush() == nil, "pool.put_writer_flush_works")
+	fs3, ok3 := vParseFrames(dst3.all)
+	vAssert(vAnd(ok3, len(fs3) == 1), "pool.put_writer_one_frame")
+	if ok3 && len(fs3) == 1 {
+		vAssert(vAnd(fs3[0].masked == !server, vEqBytes(fs3[0].payload, []byte("xy"))), "pool.put_writer_frame_as_new")
+	}
 }
 
 // C18_small_resets: CipherReader/CipherWriter/UTF8Reader Reset equal fresh instances.
